@@ -97,7 +97,7 @@ type vC03Sc struct {
 }
 
 type vC03Cancel struct {
-	Mode string // none | pre | at | deadline | expired
+	Mode string // none | pre | at | deadline | expired | walkaway (the channel consumer cancels on its first item and stops reading)
 	At   time.Duration
 }
 
@@ -135,7 +135,11 @@ type vC03OpRun struct {
 	Items    int
 	Quorum   int // GetValue / SearchValue: explicit quorum option
 	Panicked bool
-	fn       func(ctx context.Context, o *vC03OpRun)
+	// walkAway, if set (cancel mode "walkaway"), is what the channel consumer does on its first item: it cancels the
+	// operation's context and stops reading (a caller that got what it wanted). Abandoned tells that it did.
+	walkAway  func()
+	Abandoned bool
+	fn        func(ctx context.Context, o *vC03OpRun)
 	done     chan struct{}
 	mu       sync.Mutex
 	ready    []time.Time // instants at which the channel consumer was ready to receive again
@@ -276,6 +280,11 @@ func vC03MakeOp(c *vh.Case, n *vNet, sc *vC03Sc, r *rand.Rand, name string, j in
 			o.noteReady()
 			for range ch {
 				o.Items++
+				if o.walkAway != nil {
+					o.walkAway()
+					o.Abandoned = true
+					return
+				}
 				if delay > 0 {
 					time.Sleep(delay)
 				}
@@ -296,12 +305,21 @@ func vC03MakeOp(c *vh.Case, n *vNet, sc *vC03Sc, r *rand.Rand, name string, j in
 		o.ChanOp = true
 		plantProviders(key)
 		count := []int{0, 1, 3, K, 100}[r.Intn(5)]
+		if c.Idx%16 == 5 {
+			cd = cid.Undef // invalid argument: the call must still hand back a channel that gets closed
+			c.Set("undefined_cid", true)
+		}
 		o.fn = func(ctx context.Context, o *vC03OpRun) {
 			ch := n.D.FindProvidersAsync(ctx, cd, count)
 			o.TCallRet = time.Now()
 			o.noteReady()
 			for range ch {
 				o.Items++
+				if o.walkAway != nil {
+					o.walkAway()
+					o.Abandoned = true
+					return
+				}
 				if delay > 0 {
 					time.Sleep(delay)
 				}
@@ -770,6 +788,20 @@ func vC03RunOnce(t *testing.T, c *vh.Case, sc *vC03Sc, cm vC03Cancel) *vC03Out {
 	// at-rest census: the DHT's long-lived loops (and the event registrations made just above)
 	synctest.Wait()
 	base, _ := vC03Census()
+	if cm.Mode == "walkaway" {
+		for _, o := range runs {
+			if o.ChanOp {
+				o.walkAway = func() {
+					tcMu.Lock()
+					if tCancel.IsZero() {
+						tCancel = time.Now()
+					}
+					tcMu.Unlock()
+					cancelRoot()
+				}
+			}
+		}
+	}
 	for _, o := range runs {
 		go vC03OpGoroutine(c, ctx, o)
 	}
@@ -951,7 +983,9 @@ func vC03Judge(c *vh.Case, n *vNet, sc *vC03Sc, cm vC03Cancel, out *vC03Out, log
 		c.Obs("items_returned", o.Items)
 		d := o.TRet.Sub(o.TCall)
 		c.ObsMax("op_virtual_ms", int(d.Milliseconds()))
-		if o.ChanOp {
+		if o.ChanOp && o.Abandoned {
+			c.Obs("consumer_walked_away", 1) // cancelled its context on the first item and stopped reading: leak clauses only
+		} else if o.ChanOp {
 			c.Clause("chan-closed") // the consumer's range loop ended; otherwise op-hang fires
 			c.Obs("channels_closed", 1)
 			if !o.TCallRet.IsZero() {
@@ -1136,7 +1170,7 @@ func vC03Describe(c *vh.Case, sc *vC03Sc, cm vC03Cancel) {
 
 func TestVerif_C03_ops(t *testing.T) {
 	vh.Run(t, vh.Spec{Prop: "C03", Unit: "ops", Quick: 1600, Thorough: 80000, CostMs: 18,
-		Rule:    "PRNG case = simulated network (N 0-150; K in {1,2,3,5,8,20}, alpha in {1,2,3,10}, beta in {1,2,3,K}; knowledge full/kbucket/sparse; 0-90% (or all) peers failing by dial error, slow dial error, dials that take 2-9.5 s, request error, silence (10 s simulated read timeout), late answers (2-9.5 s), per-request flakiness, failing only the store RPC, answering once then silent; liars adding self / duplicates / strangers / 200 entries / themselves / mis-keyed records; value and provider records on some peers and locally; optional earlier lookups that filled the table; optional query/lookup event consumers; slow channel consumer) x one of GetClosestPeers, FindPeer, GetValue, SearchValue, FindProviders, FindProvidersAsync, PutValue, Provide(classic) x cancel mode {none, cancelled before the call, expired deadline, cancel at a log-uniform virtual instant 1 ms-60 s, ctx deadline 5 ms-61 s}; every 40th case is forced to a GetValue/SearchValue with Quorum 1-2, alpha 3 or 10, >= 25 peers all holding valid records, latencies 1-400 ms, un-cancelled context; oracle in virtual time over the simulated wire/dial log + goroutine census; non-trivial = >= 1 RPC and (a contacted peer failed / was silent / late, or the cancellation hit the operation); distinct by (operation, cancel mode, shape, RPC count, outcome and return instant)",
+		Rule:    "PRNG case = simulated network (N 0-150; K in {1,2,3,5,8,20}, alpha in {1,2,3,10}, beta in {1,2,3,K}; knowledge full/kbucket/sparse; 0-90% (or all) peers failing by dial error, slow dial error, dials that take 2-9.5 s, request error, silence (10 s simulated read timeout), late answers (2-9.5 s), per-request flakiness, failing only the store RPC, answering once then silent; liars adding self / duplicates / strangers / 200 entries / themselves / mis-keyed records; value and provider records on some peers and locally; optional earlier lookups that filled the table; optional query/lookup event consumers; slow channel consumer) x one of GetClosestPeers, FindPeer, GetValue, SearchValue, FindProviders, FindProvidersAsync (every 16th case index with an undefined CID), PutValue, Provide(classic) x cancel mode {none, cancelled before the call, expired deadline, cancel at a log-uniform virtual instant 1 ms-60 s, ctx deadline 5 ms-61 s}; every second SearchValue / FindProvidersAsync case is run once more with a consumer that cancels its context on the first item and stops reading; every 40th case is forced to a GetValue/SearchValue with Quorum 1-2, alpha 3 or 10, >= 25 peers all holding valid records, latencies 1-400 ms, un-cancelled context; oracle in virtual time over the simulated wire/dial log + goroutine census; non-trivial = >= 1 RPC and (a contacted peer failed / was silent / late, or the cancellation hit the operation); distinct by (operation, cancel mode, shape, RPC count, outcome and return instant)",
 		Clauses: []string{"return-bounded", "cancel-prompt", "chan-closed", "chan-call-prompt", "quiet-after-return", "no-leak", "closed-empty"}},
 		func(c *vh.Case) {
 			sc := vC03GenSc(c.R, 150)
@@ -1164,6 +1198,15 @@ func TestVerif_C03_ops(t *testing.T) {
 					c.Nontrivial(out.Sig)
 				}
 			})
+			// channel operations, every second case: the same scenario once more with a consumer that cancels its
+			// context on the first item and stops reading; whatever the search still wants to hand over must be
+			// dropped, nothing may stay blocked (judged by quiet-after-return / no-leak / closed-empty)
+			if !c.Failed() && c.Idx%2 == 0 && (sc.Ops[0] == "searchvalue" || sc.Ops[0] == "findprovsasync") {
+				c.Bubble(t, vC03Budget, "op-hang", func(t *testing.T) {
+					vC03RunOnce(t, c, sc, vC03Cancel{Mode: "walkaway"})
+					c.Obs("walkaway_runs", 1)
+				})
+			}
 		})
 }
 
